@@ -74,6 +74,7 @@ def run(tier):
     from harness import probes
     probes.discriminator_probe(R, {'dispatch'})
     order_probe(R)
+    unusual_alternatives_probe(R)
     bad_model = P.check("C13_model", C_MODEL)
     if bad_model and not R.violations:
         for c in bad_model[:5]:
@@ -85,6 +86,92 @@ def run(tier):
              "alternatives sharing a JSON class, int/float/bool, Literal/Enum vs str/int, objects; with and without coercion; "
              "each case is checked against the implementation's own per-alternative outcomes and against the Coq model; "
              "distinct by (type shape, data class, outcome kind, error kinds, coerce, no_copy, additional_properties)")
+
+
+UNUSUAL_SRC = '''
+from dataclasses import dataclass, field
+from typing import Annotated, Dict, List, Literal, Optional, Union
+from apischema import alias, discriminator
+
+class Slug(str):                       # subclasses of primitive types as alternatives
+    pass
+
+class Port(int):
+    pass
+
+@dataclass
+class Bird:                            # the discriminator property is a field whose name differs from its alias
+    kind: Literal["bird", "chick"] = field(metadata=alias("type"))
+    wings: int = 2
+
+@dataclass
+class Fish:
+    kind: Literal["fish"] = field(default="fish", metadata=alias("type"))
+
+@dataclass
+class Rock:                            # no field for the discriminator: its tag is the class name
+    weight: int = 1
+
+Thing = Annotated[Union[Bird, Fish, Rock], discriminator("type")]
+'''
+
+
+def unusual_alternatives_probe(R):
+    """unions with subclasses of primitive types, and discriminated unions whose tag is read from a Literal field named otherwise
+    than its alias: the union accepts a datum iff one alternative does, with the result of the first accepting one"""
+    from harness import pyrun
+    pyrun.ensure_repo_on_path()
+    import apischema.cache
+    from typing import Dict, List, Optional, Union
+    from apischema import deserialize, serialize, ValidationError
+    apischema.cache.reset()
+    mod = pyrun.exec_module(UNUSUAL_SRC)
+    Slug, Port = mod.Slug, mod.Port
+
+    def out(tp, d, **kw):
+        try:
+            v = deserialize(tp, d, **kw)
+            return ("ok", type(v).__name__, v)
+        except ValidationError:
+            return ("err",)
+        except Exception as e:   # noqa
+            return ("raise", f"{type(e).__name__}: {e}")
+    try:
+        unions = [(int, Slug), (Port, str), (Slug, type(None), List[int]), (Port, Slug), (float, Port, Slug), (Dict[str, int], Slug, Port),
+                  (List[Slug], Slug), (bool, Port)]
+        for alts in unions:
+            U = Union[alts]
+            for d in ("a-b", "", 3, 0, 2.5, True, None, [1], ["x"], {"k": 1}, {}):
+                for kw in ({}, {"coerce": True}):
+                    R.count("unusual_alternatives_probe")
+                    got = out(U, d, **kw)
+                    each = [out(a, d, **kw) for a in alts]
+                    first = next((e for e in each if e[0] == "ok"), None)
+                    info = dict(source=UNUSUAL_SRC, type=str(U), data=repr(d), options=kw)
+                    if got[0] == "raise" or any(e[0] == "raise" for e in each):
+                        R.violation(f"deserialize({U}, {d!r}) raised {got[1] if got[0] == 'raise' else each}", info)
+                    elif kw:
+                        continue        # under coercion the alternative chosen may differ (C14); only crashes are looked at here
+                    elif (first is None) != (got[0] != "ok"):
+                        R.violation(f"deserialize({U}, {d!r}) gives {got!r} but its alternatives alone give {each!r}", info)
+                    elif first is not None and (got[1] != first[1] or got[2] != first[2]):
+                        R.violation(f"deserialize({U}, {d!r}) = {got!r} differs from the first accepting alternative's {first!r}", info)
+        # the tag of an alternative is the value of its Literal field found by *alias*
+        for d, want in (({"type": "bird"}, mod.Bird("bird")), ({"type": "chick", "wings": 3}, mod.Bird("chick", 3)), ({"type": "fish"}, mod.Fish()),
+                        ({"type": "Rock", "weight": 2}, mod.Rock(2)), ({"type": "Bird"}, None), ({"type": "rock"}, None), ({"kind": "bird"}, None)):
+            R.count("unusual_alternatives_probe:discriminated")
+            got = out(mod.Thing, dict(d))
+            info = dict(source=UNUSUAL_SRC, type="Thing", data=repr(d))
+            if want is None:
+                if got[0] != "err":
+                    R.violation(f"deserialize(Thing, {d!r}) gives {got!r}: no alternative has this tag", info)
+            elif got[0] != "ok" or got[2] != want:
+                R.violation(f"deserialize(Thing, {d!r}) gives {got!r} where the alternative alone gives {want!r}", info)
+            elif deserialize(mod.Thing, serialize(mod.Thing, want)) != want:
+                R.violation(f"{want!r} does not come back from serialize(Thing, ...) = {serialize(mod.Thing, want)!r}", info)
+    finally:
+        pyrun.drop_module(mod)
+        apischema.cache.reset()
 
 
 def order_probe(R):
